@@ -223,6 +223,9 @@ pub struct ModuleInfo {
     pub type_aliases: TypeAliasMap,
     /// Loaded external modules to avoid duplicate loading when resolving `use` statements
     pub loaded_external_modules: HashSet<Symbol>,
+    /// Mangled names of the modules that are not declared `pub`: a path that goes through one
+    /// of them is only allowed from inside the module that declares it.
+    pub private_modules: HashSet<Symbol>,
 }
 
 impl ModuleInfo {
@@ -371,12 +374,15 @@ fn stmts_from_program_with_prefix(
                 )])
             }
             ProgramStatement::ModuleDefinition {
-                visibility: _,
+                visibility,
                 name,
                 body,
             } => {
                 let module_symbol = mangle_qualified_name(module_prefix, name);
                 module_info.loaded_external_modules.insert(module_symbol);
+                if visibility != Visibility::Public {
+                    module_info.private_modules.insert(module_symbol);
+                }
 
                 // Flatten module contents with qualified names
                 let mut new_prefix = module_prefix.to_vec();
@@ -623,7 +629,30 @@ fn process_use_statement(
 
         if *visibility == Visibility::Public {
             let exported_name = mangle_qualified_name(module_prefix, alias_name);
-            module_info.visibility_map.insert(exported_name, true);
+            // A re-export cannot make a member more visible than it is: `pub use m::f` of a
+            // private `f` must not open `f` to everybody who can see this module.
+            let target_is_public = module_info
+                .visibility_map
+                .get(&mangled)
+                .copied()
+                .unwrap_or(true)
+                && {
+                    // ... nor can it open a member of a module that is not `pub` unless the
+                    // re-exporting module is inside the module that declares it
+                    let segments: Vec<&str> = mangled.as_str().split('$').collect();
+                    (2..segments.len()).all(|k| {
+                        let module = segments[..k].join("$").to_symbol();
+                        !module_info.private_modules.contains(&module)
+                            || (module_prefix.len() >= k - 1
+                                && module_prefix[..k - 1]
+                                    .iter()
+                                    .zip(&segments[..k - 1])
+                                    .all(|(a, b)| a.as_str() == *b))
+                    })
+                };
+            module_info
+                .visibility_map
+                .insert(exported_name, target_is_public);
             module_info.use_alias_map.insert(exported_name, mangled);
         }
     }
